@@ -25,7 +25,7 @@ func isFontscanReader(p *Prog) func(f *ssa.Function) bool {
 
 func runC16(p *Prog, r *Report) {
 	r.Explain = append(r.Explain, "R-GEN (P-LIN) on the cache readers of fontscan: every index, slice and binary.*.UintN access to the input bytes of a deserialize* function follows from the length tests that dominate it (linear facts: failing edges of comparisons, loop headers, lengths of made slices, `read <= len(arg)` post-conditions of the nested readers, constant length preconditions of helpers checked at every call site): a truncated or corrupted cache yields an error, not a panic.")
-	ruleGen(p, r, "R-GEN", isFontscanReader(p), nil, 8)
+	ruleGenReaders(p, r, "R-GEN", isFontscanReader(p), nil, 8)
 	r.Explain = append(r.Explain, "R-ERR: the error of every deserialize* call is returned or tested on all paths; the one deliberate discard (refreshSystemFontsIndex) feeds a value that is only handed to scanFontFootprints.")
 	ruleErr(p, r)
 	r.Assumptions = append(r.Assumptions, "integer overflow of offset arithmetic is not modelled", "compress/gzip and bytes.Buffer are trusted", "incremental refresh versus from-scratch scan over file-system histories is behaviour over an external mutable world and is NOT decided; writer/reader layout agreement (round trip) is NOT decided in this revision")
